@@ -59,7 +59,8 @@ const (
 	PolHerd
 	PolStall
 	PolScript
-	PolNames = "seq,walk,pct,herd,stall,script"
+	PolQuantum // time slices: preempt every Quantum yields (and at shared sites with PShared)
+	PolNames   = "seq,walk,pct,herd,stall,script,quantum"
 )
 
 // event kinds (in the event log and in scripts)
@@ -92,6 +93,8 @@ type Policy struct {
 	Seed uint64
 	// walk / herd / stall: preemption probabilities (as threshold on a 53-bit draw)
 	PShared, PAPI, PPlain, PBound float64
+	// quantum
+	Quantum int64
 	// pct
 	Depth    int
 	EstSteps int64
@@ -432,6 +435,13 @@ func yslow(site uint32, kind int) {
 			preempt = true
 		} else {
 			preempt = walkDecide(kind)
+		}
+	case PolQuantum:
+		if steps >= nextPlain {
+			nextPlain = steps + pol.Quantum
+			preempt = true
+		} else if kind == KShared {
+			preempt = hit(thrShared)
 		}
 	case PolScript:
 		scriptAt(site, EvSwitch)
@@ -1169,6 +1179,11 @@ func setup(n int, p Policy, nops int) {
 	switch p.Kind {
 	case PolWalk:
 		nextPlain = geom(p.PPlain)
+	case PolQuantum:
+		if pol.Quantum < 1 {
+			pol.Quantum = 1
+		}
+		nextPlain = 1 + int64(splitmix()%uint64(pol.Quantum))
 	case PolHerd:
 		herdPhase = true
 		nextPlain = geom(p.PPlain)
